@@ -287,6 +287,8 @@ def convert(infile, out_file_name, **options):  # type: (str, str, **str) -> Non
                         db.del_signal(signal)
                         logger.info("Deleted %s",(frame.name+"::"+signal.name))
                     db.del_frame(frame)
+            # the dbc import keeps signals without frame in db.signals
+            del db.signals[:]
 
         # Check & Warn for Receiver Node against signals
         if options.get('checkSignalReceiver') is not None and options['checkSignalReceiver']:
@@ -301,6 +303,8 @@ def convert(infile, out_file_name, **options):  # type: (str, str, **str) -> Non
                 if frame.name == 'VECTOR__INDEPENDENT_SIG_MSG':
                     for signal in frame:
                         logger.warning("Please map the signal %s to a valid frame or delete by deleteFloatingSignals", signal.name)
+            for signal in db.signals:
+                logger.warning("Please map the signal %s to a valid frame or delete by deleteFloatingSignals", signal.name)
 
         # Check & Warn for Frame/Messages without Transmitter Node
         if options.get('checkFloatingFrames') is not None and options['checkFloatingFrames']:
